@@ -14,7 +14,7 @@
 EXTENDS ConvCache, Json
 
 VARIABLES hist,   \* the history
-          when    \* [redef, coll]: history length from which the environment actions are enabled (TLC
+          when    \* [redef, coll, rebind]: history length from which the environment actions are enabled (TLC
                   \* picks successors uniformly; without this the environment would nearly always act first)
 svars == <<vars, hist, when>>
 Whens == {0, 8, 16, 24, 32, 48}
@@ -23,12 +23,18 @@ Abs == [cache |-> {<<k[1], k[2], cache[k]>> : k \in {kk \in Keys : cache[kk] # N
         owner |-> owner, depth |-> depth,
         ntr   |-> {<<k[1], k[2], ntr[k]>> : k \in {kk \in Keys : ntr[kk] # 0}},
         ret   |-> {<<r.code, r.env, r.o, r.fac, r.renv>> : r \in returned},
-        fns   |-> {<<f.code, f.env>> : f \in fns}]
+        fns   |-> {<<f.code, f.env>> : f \in fns},
+        cells |-> {<<e, cellval[e]>> : e \in Envs},                    \* contents of the closure cells
+        addr  |-> {<<c, addr[c]>> : c \in {f.code : f \in fns}}]       \* addresses of the live code objects
 
 Rec(a, t, x) == hist' = Append(hist, [a |-> a, t |-> t, x |-> x, s |-> Abs']) /\ UNCHANGED when
 Z == <<0, 0, 0>>
 
-SInit == Init /\ hist = <<>> /\ when \in [redef : Whens, coll : Whens]
+(* any initial contents of the cells (distinct cells holding equal values included); the first history *)
+(* record describes the initial state                                                                  *)
+SInit == /\ InitBase(InitFns) /\ cellval \in [Envs -> Vals]
+         /\ hist = <<[a |-> "Init", t |-> 0, x |-> Z, s |-> Abs]>>
+         /\ when \in [redef : Whens, coll : Whens, rebind : Whens]
 
 SStep(t) ==
   \/ \E f \in fns, o \in Opts : Start(t, f, o) /\ Rec("Start", t, <<f.code, f.env, o>>)
@@ -54,6 +60,7 @@ SStep(t) ==
 SEnv ==
   \/ Len(hist) >= when.redef /\ \E f \in fns : Redefine(f) /\ Rec("Redefine", 0, <<f.code, f.env, FreshCode>>)
   \/ Len(hist) >= when.coll /\ \E c \in Codes : Collect(c) /\ Rec("Collect", 0, <<c, 0, 0>>)
+  \/ Len(hist) >= when.rebind /\ \E f \in fns : \E v \in Vals \ {cellval[f.env]} : Rebind(f.env, v) /\ Rec("Rebind", 0, <<f.env, v, 0>>)
 
 SNext == ~Done /\ ((\E t \in Threads : SStep(t)) \/ SEnv)
 SSpec == SInit /\ [][SNext]_svars
